@@ -199,6 +199,12 @@ def known_match(pid, case, known):
 def write_replay(pid, payload):
     d = os.path.join(VERIF, "replays")
     os.makedirs(d, exist_ok=True)
+    try:
+        notes = json.load(open(os.path.join(VERIF, "work", "tables.json"), encoding="utf-8")).get("algos_not_translated")
+        if notes and payload.get("broken_obligations"):
+            payload["function_bodies_not_translated"] = notes
+    except (OSError, ValueError):
+        pass
     h = hashlib.sha1(json.dumps(payload, sort_keys=True, default=str).encode()).hexdigest()[:10]
     p = os.path.join(d, f"{pid}-{h}.json")
     with open(p, "w", encoding="utf-8") as f:
